@@ -184,3 +184,13 @@ Proof. unfold rel_path. rewrite app_assoc.
   assert (H : forall a b : str, strip_pre a (a ++ b)%list = Some b).
   { induction a as [|x a IH]; intros b; cbn [strip_pre app]; [reflexivity|]. rewrite Ascii.eqb_refl. apply IH. }
   rewrite H. reflexivity. Qed.
+
+(* ---- C17-1 (repaired): the record matches, types.ts is lost, the regenerating run fails at its first write; since
+   the failed write leaves no file behind, the next run finds the file missing and regenerates everything ---- *)
+Lemma c17_repaired_truncation :
+  let st1 := snd (run_c true w1 false None (init_state p0 c0)) in
+  let st2 := step_c true st1 (DeleteOp Types) in
+  let r3 := run_c true w1 false (Some 0) st2 in
+  let r4 := run_c true w1 false None (snd r3) in
+  fst r3 = Failure /\ s_out (snd r3) Types = None /\ fst r4 = Success /\ all_current w1 (snd r4) = true.
+Proof. vm_compute. repeat split. Qed.
